@@ -1,5 +1,6 @@
 import Lean.Data.Json
 import XModel.Manager
+import XModel.Acyclic
 /-! JSON codec shared by the driver suites (Appendix A of DESIGN.md).  Total: malformed input is
     `none`, never defaulted. -/
 namespace Codec
